@@ -30,6 +30,7 @@ type row struct {
 	Accept bool   `json:"accept"`
 	Why    string `json:"why"`
 	Name   string `json:"name"`
+	P2     bool   `json:"p2"` // is_valid = false (Alonzo, Babbage, Conway)
 }
 
 const maxU = ^uint64(0)
@@ -107,6 +108,7 @@ type replayCase struct {
 	Slot   string  `json:"slot"`
 	Accept bool    `json:"spec_accept"`
 	Key    string  `json:"key"`
+	P2     bool    `json:"p2invalid"`
 }
 
 func parseP(s *string) *uint64 {
@@ -121,19 +123,21 @@ func parseP(s *string) *uint64 {
 }
 
 type runner struct {
-	rep   *vh.Reporter
-	owner Key
-	txid  []byte
-	cache map[string]*Built
-	seen  map[string]bool
+	p2base map[string]map[string]bool // era -> rules that reject the flagged factory transaction at every slot
+	rep    *vh.Reporter
+	owner  Key
+	txid   []byte
+	cache  map[string]*Built
+	seen   map[string]bool
 }
 
-func (r *runner) build(era string, start, end *uint64) *Built {
-	ck := fmt.Sprintf("%s/%v/%v", era, show(start), show(end))
+func (r *runner) build(era string, start, end *uint64, p2 ...bool) *Built {
+	flagged := len(p2) > 0 && p2[0]
+	ck := fmt.Sprintf("%s/%v/%v/%v", era, show(start), show(end), flagged)
 	if b, ok := r.cache[ck]; ok {
 		return b
 	}
-	b, err := BuildTx(TxSpec{Era: era, Start: start, End: end, Owner: r.owner, Sign: []Key{r.owner}, TxID: r.txid})
+	b, err := BuildTx(TxSpec{Era: era, Start: start, End: end, Owner: r.owner, Sign: []Key{r.owner}, TxID: r.txid, Phase2Invalid: flagged})
 	if err != nil {
 		r.rep.Dead("cannot build %s transaction start=%v end=%v: %v", era, show(start), show(end), err)
 	}
@@ -142,10 +146,11 @@ func (r *runner) build(era string, start, end *uint64) *Built {
 }
 
 // one executes a single concrete case; returns false when it disagreed.
-func (r *runner) one(key, era string, start, end *uint64, slot uint64, specAccept bool) bool {
-	b := r.build(era, start, end)
+func (r *runner) one(key, era string, start, end *uint64, slot uint64, specAccept bool, p2 ...bool) bool {
+	flagged := len(p2) > 0 && p2[0]
+	b := r.build(era, start, end, flagged)
 	replay := map[string]any{
-		"key": key, "era": era, "start": show(start), "end": show(end), "slot": strconv.FormatUint(slot, 10),
+		"key": key, "era": era, "p2invalid": flagged, "start": show(start), "end": show(end), "slot": strconv.FormatUint(slot, 10),
 		"spec_accept": specAccept, "tx_cbor": hex.EncodeToString(b.Bytes),
 	}
 	ok := true
@@ -166,9 +171,13 @@ func (r *runner) one(key, era string, start, end *uint64, slot uint64, specAccep
 		var other []RuleFailure
 		nvalid := 0
 		for _, f := range fails {
-			if isValidityFailure(f) {
+			switch {
+			case isValidityFailure(f):
 				nvalid++
-			} else {
+			case flagged && r.p2base[era][f.Rule]:
+				// the factory's flagged transaction has no redeemer; the rule that says so fails at
+				// every slot (see baseline) and depends on nothing the interval rule reads
+			default:
 				other = append(other, f)
 			}
 		}
@@ -178,9 +187,14 @@ func (r *runner) one(key, era string, start, end *uint64, slot uint64, specAccep
 			// attributed to the property
 			r.rep.Dead("%s: rejected by rules unrelated to the validity interval: %+v", key, other)
 		}
-		replay["code_accept"] = verr == nil
-		replay["failed_rules"] = fails
 		codeAccept := verr == nil
+		if flagged {
+			// every rule but the baseline-failing one passes: a flagged transaction that also carries
+			// its redeemer and collateral is accepted exactly when this one passes the remaining rules
+			codeAccept = nvalid == 0
+		}
+		replay["code_accept"] = codeAccept
+		replay["failed_rules"] = fails
 		switch {
 		case codeAccept && !specAccept:
 			ok = false
@@ -214,6 +228,25 @@ func (r *runner) baseline(slots map[uint64]bool) {
 				}
 			}
 		}
+		if era == "alonzo" || era == "babbage" || era == "conway" {
+			// is_valid = false: apart from the interval only "marked invalid but no redeemer" may fail
+			fb := r.build(era, nil, nil, true)
+			if fb.Tx.IsValid() {
+				r.rep.Dead("flagged %s transaction decodes with IsValid() = true", era)
+			}
+			r.p2base[era] = map[string]bool{}
+			for s := range slots {
+				for _, f := range RunRules(fb, s) {
+					if isValidityFailure(f) {
+						continue
+					}
+					if !strings.Contains(f.Rule, "IsValidFlag") {
+						r.rep.Dead("baseline flagged %s transaction rejected at slot %d by %+v", era, s, f)
+					}
+					r.p2base[era][f.Rule] = true
+				}
+			}
+		}
 		un, err := BuildTx(TxSpec{Era: era, Owner: r.owner, TxID: r.txid})
 		if err != nil {
 			r.rep.Dead("unsigned baseline: %v", err)
@@ -227,9 +260,23 @@ func (r *runner) baseline(slots map[uint64]bool) {
 func main() {
 	rep := vh.NewReporter()
 	rng := rand.New(rand.NewSource(vh.Seed()))
-	r := &runner{rep: rep, owner: NewKey(rng), txid: make([]byte, 32), cache: map[string]*Built{}, seen: map[string]bool{}}
+	r := &runner{rep: rep, owner: NewKey(rng), txid: make([]byte, 32), cache: map[string]*Built{}, seen: map[string]bool{}, p2base: map[string]map[string]bool{}}
 	rng.Read(r.txid)
 
+	if len(os.Args) >= 2 && os.Args[1] == "probe-invalid" {
+		for _, era := range []string{"alonzo", "babbage", "conway", "dijkstra"} {
+			b, err := BuildTx(TxSpec{Era: era, Owner: r.owner, Sign: []Key{r.owner}, TxID: r.txid, Phase2Invalid: true})
+			if err != nil {
+				fmt.Println(era, "build:", err)
+				continue
+			}
+			fmt.Println(era, "isValid:", b.Tx.IsValid())
+			for _, f := range RunRules(b, 5) {
+				fmt.Printf("  %+v\n", f)
+			}
+		}
+		return
+	}
 	if len(os.Args) >= 3 && os.Args[1] == "--replay" {
 		raw, err := os.ReadFile(os.Args[2])
 		if err != nil {
@@ -244,7 +291,7 @@ func main() {
 			rep.Dead("replay slot: %v", err)
 		}
 		rep.Case(rc.Key, true)
-		r.one(strings.TrimPrefix(rc.Key, "overreject:"), rc.Era, parseP(rc.Start), parseP(rc.End), slot, rc.Accept)
+		r.one(strings.TrimPrefix(rc.Key, "overreject:"), rc.Era, parseP(rc.Start), parseP(rc.End), slot, rc.Accept, rc.P2)
 		rep.Finish()
 		return
 	}
@@ -320,7 +367,7 @@ func main() {
 			start, end := u64p(m, c.Start), u64p(m, c.End)
 			rep.Case(key, true)
 			byWhy[c.Why]++
-			r.one(key, c.Era, start, end, m.v[c.Slot], c.Accept)
+			r.one(key, c.Era, start, end, m.v[c.Slot], c.Accept, c.P2)
 			if sk := c.Era + c.Why; m.name == "zext" && !sampled[c.Why] && !sampled[sk] && c.Start >= 0 && c.End > 0 {
 				sampled[c.Why], sampled[sk] = true, true
 				rep.Sample(map[string]any{"key": key, "start": show(start), "end": show(end),
